@@ -128,10 +128,20 @@ func gen(c *core.Ctx) error {
 		{nil, nil},
 	}
 	for si, sh := range shapes {
+		mkN := 0
 		mk := func(edit string, seenAB, seenBA []ss.SeenFrame) *desc {
-			return &desc{Part: 1, Edit: edit, Case: ss.Case{Setup: ss.Setup{Kind: "relay", Key: key, PreAB: sh[0], SeenAB: seenAB, PreBA: sh[1], SeenBA: seenBA}}}
+			// both ends also call SetConnection mid-negotiation / before the keys and FinalizeDigests
+			// before the keys in a rotating subset of the cases: none of it may weaken the binding
+			mkN++
+			opts := []int{0, 1, 0, 2, 0, 4, 3, 0, 7, 5}[mkN%10]
+			return &desc{Part: 1, Edit: edit, Case: ss.Case{Setup: ss.Setup{Kind: "relay", Key: key, PreAB: sh[0], SeenAB: seenAB, PreBA: sh[1], SeenBA: seenBA, RelayOpts: opts}}}
 		}
 		try(mk("none", asSeen(sh[0]), asSeen(sh[1])))
+		for _, o := range []int{1, 2, 4, 7} {
+			d := mk("none", asSeen(sh[0]), asSeen(sh[1]))
+			d.Case.Setup.RelayOpts = o
+			try(d)
+		}
 		for dir := 0; dir < 2; dir++ {
 			sent := sh[dir]
 			other := asSeen(sh[1-dir])
